@@ -125,6 +125,29 @@ class OpSpec(StateModel, FunctionSpec):
                 out.append((v, "seq"))
         return out
 
+    def frame_ok(self, run: Run) -> tuple[bool, str]:
+        """C15: every heap write of this activation went to the per-parse objects (the ParserState and its
+        components, the caller's pairs list) or to objects allocated by the activation itself - never to the
+        expression object, the parser, the rule table or any other pre-existing object."""
+        st = run.pre.get("st")
+        allowed = set()
+        if st is not None:
+            allowed.add(st.oid)
+            for v in run.obj(st).values():
+                if isinstance(v, Ref):
+                    allowed.add(v.oid)
+                    for v2 in run.obj(v).values():
+                        if isinstance(v2, Ref):
+                            allowed.add(v2.oid)
+        if "pairs" in run.pre:
+            allowed.add(run.pre["pairs"].oid)
+        for oid, f in run.all_writes:
+            o = run.heap.objs.get(oid)
+            if o is None or oid in allowed or o.get("$fresh"):
+                continue
+            return False, f"write to pre-existing object #{oid} ({o.get('$cls')}).{f}"
+        return True, ""
+
     def snaps_same(self, run: Run) -> z3.BoolRef:
         s0, s1 = run.pre["snaps"], self.snaps(run, run.pre["st"])
         return z3.And(*[s1[k] == s0[k] for k in ("us", "rs", "ad", "ph")])
@@ -176,6 +199,8 @@ class OpSpec(StateModel, FunctionSpec):
             run.oblige(f"K.st.{f}", z3.Implies(cond, lget(Lc, f) == lget(L1, f)), w)
         run.oblige("K.pairs", self.pairs_now(run) == z3.If(ok, z3.Concat(P0, prs), P0), w)
         run.oblige("frame.snaps", self.snaps_same(run), w)
+        fr_ok, fr_why = self.frame_ok(run)
+        run.oblige("frame.no_shared_writes", fr_ok, note=fr_why)
         for i, g in enumerate(G(L0, okc, Lc, prs)[:-1]):
             run.oblige(f"G.{i}", g, w)
         # C06: the delivered pairs are well-formed inside [pos0, pos1]
@@ -961,16 +986,38 @@ class ParserParseSpec(RulesMixin, StateModel, FunctionSpec):
         ok, L1, P = self.K(run)  # noqa: N806
         run.oblige("K.ok", ok)
         run.oblige("state.args", pre["state_args_ok"])
+        self._frame(run)
         good = isinstance(out, Ref) and run.cls_of(out) == "pest.pairs.Pairs"
         run.oblige("result.is_pairs", good)
         if good:
             t, _ = run.as_seq(run.obj(out)["_pairs"], None, "pair")
             run.oblige("result.pairs", t == P)
 
+    def _frame(self, run: Run) -> None:
+        bad = ""
+        for oid, f in run.all_writes:
+            o = run.heap.objs.get(oid)
+            if o is not None and not o.get("$fresh") and not self._under_fresh_state(run, oid):
+                bad = f"write to pre-existing object #{oid} ({o.get('$cls')}).{f}"
+                break
+        run.oblige("frame.no_shared_writes", not bad, note=bad)
+
+    def _under_fresh_state(self, run: Run, oid: int) -> bool:
+        st = run.pre.get("st")
+        if st is None:
+            return False
+        ids = {st.oid}
+        for v in run.obj(st).values():
+            if isinstance(v, Ref):
+                ids.add(v.oid)
+                ids |= {v2.oid for v2 in run.obj(v).values() if isinstance(v2, Ref)}
+        return oid in ids and oid != run.pre["me"].oid
+
     def post_exc(self, run: Run, pre: Any, exc: PyExc) -> None:
         if exc.name == "PestParsingError":
             ok, L1, P = self.K(run)  # noqa: N806
             run.oblige("K.fail", z3.Not(ok))
+            self._frame(run)
             payload = exc.payload
             st = payload[2][0] if payload and payload[2] else None
             run.oblige("error.state", isinstance(st, Ref) and st == pre.get("st"))
@@ -1269,6 +1316,8 @@ class ParseTriviaSpec(RulesMixin, OpSpec):
             run.oblige(f"K.st.{f}", lget(Lc, f) == lget(L1, f))
         run.oblige("K.pairs", self.pairs_now(run) == z3.Concat(P0, prs))
         run.oblige("frame.snaps", self.snaps_same(run))
+        fr_ok, fr_why = self.frame_ok(run)
+        run.oblige("frame.no_shared_writes", fr_ok, note=fr_why)
         for i, g in enumerate(G(L0, z3.BoolVal(True), Lc, prs)[:-1]):
             run.oblige(f"G.{i}", g)
         run.assume(W1(lget(L0, "pos"), lget(L0, "pos")))
